@@ -110,10 +110,12 @@ func (c *cluster) onWireMsg(m *streamMon, w *wireMsg) {
 			c.onTimeoutNowWritten(src, w)
 		case *installSnapReq:
 			c.stats.class("wire-installSnap")
+			c.actsAsLeader(src, q.term, "InstallSnapshot")
 		case *appendReq:
 			if q.numEntries > 0 {
 				c.stats.class("wire-append-entries")
 			}
+			c.actsAsLeader(src, q.term, "AppendEntries")
 		}
 		return
 	}
@@ -363,4 +365,22 @@ func diskEntryTerm(storageDir string, index uint64) (term uint64, ok bool) {
 		}
 	}
 	return 0, false
+}
+
+// actsAsLeader: whoever replicates in term T must have entered Leader state in T.
+func (c *cluster) actsAsLeader(src *simNode, term uint64, what string) {
+	if src == nil {
+		return
+	}
+	c.evMu.Lock()
+	ok := false
+	for _, id := range c.eagerLeader[term] {
+		if id == src.id {
+			ok = true
+		}
+	}
+	c.evMu.Unlock()
+	if !ok {
+		c.fail("leader-unique", "acts-as-leader-without-election", "node %d sent %s for term %d without having become leader of that term", src.id, what, term)
+	}
 }
